@@ -245,18 +245,22 @@ luaL_setfuncs({LUA_state_var}, {LUA_class_reg}, 0);
             nargs = 0
             in_args = []
             out_args = []
+            # Each overload has its own result.
+            subprogram = function.ast.get_subprogram()
+            if is_dtor:
+                subprogram = "subroutine"
             for arg in function.ast.params:
                 arg_typemap = arg.typemap
                 if arg.init is not None:
                     all_calls.append(
                         LuaFunction(
-                            function, CXX_subprogram, in_args[:], out_args
+                            function, subprogram, in_args[:], out_args
                         )
                     )
                 in_args.append(arg)
             # no defaults, use all arguments
             all_calls.append(
-                LuaFunction(function, CXX_subprogram, in_args[:], out_args)
+                LuaFunction(function, subprogram, in_args[:], out_args)
             )
             maxargs = max(maxargs, len(in_args))
 
